@@ -36,6 +36,8 @@ type JVal struct {
 	LoneSurrogate bool
 	Arr           []*JVal
 	Obj           []JMember
+	// Refs: the texts of the references of a template string, in order (C14 JSON ranges).
+	Refs []string
 }
 
 // JSONOpts controls JSON document generation.
